@@ -87,10 +87,27 @@ def pooled_eval(w, poolsize, spec, rng=None, script=None, step_cap=5_000_000, cu
         except Exception as e:
             res.exc = e
     res.pending = sched.drain_pending()
+    if sess.lazy:
+        # lazily scheduled work the evaluation left behind: run it now (its side effects are real) and count it
+        with _reactivated(sess):
+            res.pending += sess.finish()
     alive = sess.live_sim_threads()
     if alive:
         raise core.HarnessError("simulated threads still alive after the evaluation: %r" % alive)
     return res
+
+
+class _reactivated:
+    def __init__(self, sess):
+        self.sess = sess
+
+    def __enter__(self):
+        sched.ACTIVE = self.sess
+
+    def __exit__(self, *exc):
+        sched.ACTIVE = None
+        sched._mon.set_events(sched.TOOL_ID, 0)
+        return False
 
 
 def sched_rng(seed):
